@@ -24,8 +24,10 @@ import (
 //         e<k>           client EXECUTEs statement k
 //         b<k>           client sends a BATCH with statement k as a prepared child
 //         f<h>           node h restarts (forgets its prepared statements; connections stay)
-//         x<h>:<err|inv|drop> the next PREPARE reaching node h fails that way (server error / INVALID / connection lost)
+//         x<h>:<err|inv|drop|hang> the next PREPARE reaching node h fails that way (server error / INVALID / connection lost /
+//                        never answered, the node being removed from the cluster 150 ms later)
 //       statements 1, 2 are idempotent, 3, 4 are not (now())
+//         P<k> E<k> B<k> the same from a second client connection that has switched to another keyspace (another session)
 //         a              a new node joins (delivered to the proxy as the Add event a topology refresh produces)
 // real: one token per client action: ok | prepared | unprepared | err | proxyerr | none ; then reprep=<hosts>
 
@@ -97,6 +99,17 @@ func runPrep(op string) (out string) {
 				if f == "drop" {
 					return fakecass.Response{Kind: fakecass.RespClose}
 				}
+				if f == "hang" {
+					// the PREPARE is never answered, and a little later the node is taken out of the cluster: the proxy
+					// closes its connections to it itself
+					node := rq.Node
+					go func() {
+						time.Sleep(150 * time.Millisecond)
+						proxy.VerifDeliverClusterEvent(env.Proxy, &proxycore.RemoveEvent{Host: &proxycore.Host{
+							Endpoint: proxycore.NewEndpoint(fmt.Sprintf("%s:%d", node, env.Cluster.Port))}})
+					}()
+					return fakecass.Response{Kind: fakecass.RespSilent}
+				}
 				if f == "inv" {
 					return fakecass.Response{Kind: fakecass.RespMsg, Msg: &message.Invalid{ErrorMessage: "prepare refused"}}
 				}
@@ -128,8 +141,34 @@ func runPrep(op string) (out string) {
 	opts := &message.QueryOptions{Consistency: primitive.ConsistencyLevelOne, PositionalValues: []*primitive.Value{primitive.NewValue([]byte{0, 0, 0, 1})}}
 	var res []string
 	stream := int16(0)
+	// P / E / B: the same from a second client whose connection uses another keyspace, i.e. another backend session
+	var cl2 *e2e.Client
+	second := func() *e2e.Client {
+		if cl2 == nil {
+			c, err := env.Dial(primitive.ProtocolVersion4, comp)
+			if err != nil {
+				return nil
+			}
+			_ = c.Send(1, &message.Query{Query: "USE ks2", Options: &message.QueryOptions{Consistency: primitive.ConsistencyLevelOne}})
+			_, _ = c.Recv(3 * time.Second)
+			cl2 = c
+		}
+		return cl2
+	}
+	defer func() {
+		if cl2 != nil {
+			cl2.Close()
+		}
+	}()
 	for _, a := range acts {
 		var msg message.Message
+		sender := cl
+		if a[0] == 'P' || a[0] == 'E' || a[0] == 'B' {
+			if sender = second(); sender == nil {
+				return "dial-error:second-client"
+			}
+			a = strings.ToLower(a[:1]) + a[1:]
+		}
 		switch a[0] {
 		case 'p':
 			k, _ := strconv.Atoi(a[1:])
@@ -178,11 +217,11 @@ func runPrep(op string) (out string) {
 			continue
 		}
 		stream++
-		if cl.Send(stream, msg) != nil {
+		if sender.Send(stream+100, msg) != nil {
 			res = append(res, "closed")
 			continue
 		}
-		r, err := cl.Recv(2 * time.Second)
+		r, err := sender.Recv(2 * time.Second)
 		mu.Lock()
 		clientPrepares = 0
 		mu.Unlock()
@@ -216,6 +255,14 @@ func runPrep(op string) (out string) {
 func genPrep(e *emitter, r *rng.R, n int, tier string) {
 	ops := []string{
 		"H:3 Z:- p1 e1 e1 e1 e1",
+		"H:3 Z:- p1 E1 E1 E1 E1 e1",
+		// the re-PREPARE is never answered and the node is then removed (the proxy closes the connection itself); last action of a case
+		"H:3 Z:- p1 f0 f1 f2 x0:hang x1:hang x2:hang e1",
+		"H:3 Z:- p1 f0 f1 f2 x0:hang x1:hang e1",
+		"H:3 Z:- p1 e1 f0 f1 f2 x1:hang x2:hang e1",
+		"H:2 Z:lz4 p1 f0 f1 x0:hang x1:hang b1",
+		"H:2 Z:- p3 f0 f1 x0:hang x1:hang e3",
+		"H:3 Z:lz4 p1 f0 f1 f2 E1 E1 E1 B1 P2 e2 e2 e2",
 		"H:3 Z:lz4 p1 e1 e1 e1",
 		"H:3 Z:snappy p1 e1 e1 e1",
 		"H:2 Z:- p1 a e1 e1 e1 e1",
@@ -231,6 +278,15 @@ func genPrep(e *emitter, r *rng.R, n int, tier string) {
 		parts := []string{fmt.Sprintf("H:%d", h), "Z:" + rr.Pick([]string{"-", "-", "lz4", "snappy"})}
 		added := 0
 		prepared := map[int]bool{}
+		// a case either has a second session or nodes that join / connections that are dropped: the harness delivers a
+		// joining node to the sessions that exist, and a dropped connection belongs to one session only
+		two := rr.Chance(1, 3)
+		pick := func(lo, up string) string {
+			if two && rr.Chance(1, 3) {
+				return up
+			}
+			return lo
+		}
 		for j := 0; j < 4+rr.Intn(10); j++ {
 			k := 1 + rr.Intn(2)
 			if rr.Intn(3) == 0 {
@@ -245,18 +301,22 @@ func genPrep(e *emitter, r *rng.R, n int, tier string) {
 				if !prepared[k] {
 					k = other(k)
 				}
-				parts = append(parts, fmt.Sprintf("e%d", k))
+				parts = append(parts, fmt.Sprintf("%s%d", pick("e", "E"), k))
 			case c < 14:
 				if !prepared[k] {
 					k = other(k)
 				}
-				parts = append(parts, fmt.Sprintf("b%d", k))
+				parts = append(parts, fmt.Sprintf("%s%d", pick("b", "B"), k))
 			case c < 16:
 				parts = append(parts, fmt.Sprintf("f%d", rr.Intn(h+added)))
 			case c < 18:
-				parts = append(parts, fmt.Sprintf("x%d:%s", rr.Intn(h+added), rr.Pick([]string{"err", "drop", "inv"})))
+				kinds := []string{"err", "drop", "inv"}
+				if two {
+					kinds = []string{"err", "inv"}
+				}
+				parts = append(parts, fmt.Sprintf("x%d:%s", rr.Intn(h+added), rr.Pick(kinds)))
 			default:
-				if added < 1 {
+				if added < 1 && !two {
 					parts = append(parts, "a")
 					added++
 				}
